@@ -318,7 +318,10 @@ pub fn gen_locktime(t: &mut Tape) -> LockTime {
         3 => u32::MAX,
         _ => t.edgy_u32(),
     };
-    LockTime::from_consensus(n)
+    // unit by the rule itself (below 500 000 000: a height), not by the library's classifier, so that the
+    // variant of the generated value is the harness's statement about it
+    let made = if n < 500_000_000 { LockTime::from_height(n).ok() } else { LockTime::from_time(n).ok() };
+    made.unwrap_or_else(|| LockTime::from_consensus(n))
 }
 
 pub fn gen_count(t: &mut Tape, max: usize, big: bool) -> usize {
